@@ -194,6 +194,9 @@ def handle (args : List String) : String :=
   | ["reshape", i, t, az] =>
     (match parseInts i, parseInts t with
      | some i, some t => showOInts (reshapeTarget i t (az == "1")) | _, _ => bad)
+  | ["gatherSpec", l, idx] =>
+    (match parseInts l, parseInts idx with
+     | some l, some idx => showOInts (onnxGatherAxis0 l idx) | _, _ => bad)
   | ["flattenSpec", i, ax] =>
     (match parseInts i, ax.toNat? with
      | some i, some ax => showInts (flattenSpec i ax) | _, _ => bad)
